@@ -377,7 +377,14 @@ def make_hook(rd: RefdomInfo, captured: dict):
                 return ScaledSum(v.kind, Fraction(1))
             if isinstance(v, Mask):
                 return Poly.sym(f"n[{v.name}]")
+            if isinstance(v, Val):
+                return Val()          # a reduction of coordinate values
             return NotImplemented
+        if name in ("numpy.sqrt", "numpy.abs", "numpy.square") and \
+                isinstance(args[0], Val):
+            return Val()
+        if name == "numpy.linalg.norm" and isinstance(args[0], Val):
+            return Val()
         if name == "numpy.max":
             v = args[0]
             if isinstance(v, ConnTable):
